@@ -16,7 +16,7 @@ import (
 // Engine sim — C18: histories on tcell.NewSimulationScreen(charset).
 //
 // line:  sim cfg <pppppp|rrrrrr|…> <charset> <enc table r=hex[!],…>; op; op; …
-//   S x y main comb style | F r style | Y style (SetStyle) | C x y (ShowCursor) | W (Show) | N (Sync) | Z w h (SetSize)
+//   S x y main comb style | F r style | Y style (SetStyle) | C x y (ShowCursor) | D (HideCursor) | W (Show) | N (Sync) | Z w h (SetSize)
 //   K key rune mod (InjectKey) | M x y buttons mod (InjectMouse) | B hex dectable (InjectKeyBytes → b:0|1)
 //   R r hex | U r (Register/UnregisterRuneFallback) | Q r flag (CanDisplay → q:0|1)
 //   G (observe GetContents + GetCursor) | P (observe the events polled so far) | T (observe Size())
@@ -207,10 +207,30 @@ func (s *simRun) checkFront(after string, strict bool) {
 				main, width = ' ', 1
 			}
 			got := cells[y*pw+x]
+			// the resolved style last set: the cell's own style, StyleDefault → the screen style (at this Sync; after a Show
+			// the one in effect at some Show since the last full redraw, because a clean cell is not repainted)
+			gs := FromStyle(got.Style)
+			okStyle := false
+			if c.style != (StyleF{}) {
+				okStyle = gs == c.style
+			} else if strict {
+				okStyle = gs == s.scrStyle
+			} else {
+				for _, d := range s.styles {
+					if gs == d {
+						okStyle = true
+					}
+				}
+			}
 			if x > pw-width {
 				if string(got.Bytes) != " " || len(got.Runes) != 1 || got.Runes[0] != ' ' {
 					s.finding("sim-last-column", "after %s: cell (%d,%d) holds the wide rune U+%04X in the last column but shows %s, expected a blank", after, x, y, main, showSimCell(got))
 				}
+				// "the runes and resolved style last set (a wide rune in the last column shown blank)": blank, in the style set
+				if !okStyle {
+					s.finding("sim-last-column-style", "after %s: cell (%d,%d) holds the wide rune U+%04X in the last column and is shown blank, but with Style=%s; the style last set for it is %s (screen style %s)", after, x, y, main, gs, c.style, s.scrStyle)
+				}
+				s.tags["judged-last-column-style"] = true
 				c.lastCol = true
 				x += width
 				continue
@@ -227,19 +247,6 @@ func (s *simRun) checkFront(after string, strict bool) {
 			wantRunes := h.ShowIntList(fromRunes(append([]rune{main}, c.comb...)))
 			if h.ShowIntList(fromRunes(got.Runes)) != wantRunes {
 				s.finding(stale("sim-runes"), "after %s: cell (%d,%d) Runes=%s, last set %s", after, x, y, h.ShowIntList(fromRunes(got.Runes)), wantRunes)
-			}
-			gs := FromStyle(got.Style)
-			okStyle := false
-			if c.style != (StyleF{}) {
-				okStyle = gs == c.style
-			} else if strict {
-				okStyle = gs == s.scrStyle
-			} else {
-				for _, d := range s.styles {
-					if gs == d {
-						okStyle = true
-					}
-				}
 			}
 			if !okStyle {
 				s.finding(stale("sim-style"), "after %s: cell (%d,%d) Style=%s, set %s (screen style %s)", after, x, y, gs, c.style, s.scrStyle)
@@ -371,6 +378,12 @@ func execSim(line string) h.Result {
 			scr.ShowCursor(x, y)
 			cursorSet, cursorValid = [2]int{x, y}, true
 			s.checkCursor("ShowCursor", cursorSet)
+		case f[0] == "D" && len(f) == 1:
+			// screen.go: "HideCursor is used to hide the cursor. It's an alias for ShowCursor(-1, -1)."
+			scr.HideCursor()
+			cursorSet, cursorValid = [2]int{-1, -1}, true
+			s.checkCursor("HideCursor", cursorSet)
+			s.tags["hidecursor"] = true
 		case f[0] == "W" || f[0] == "N":
 			before := s.nEvents()
 			if f[0] == "W" {
@@ -547,6 +560,14 @@ func (s *simRun) checkCursor(after string, set [2]int) {
 	x, y, vis := s.scr.GetCursor()
 	_, pw, ph := s.scr.GetContents()
 	wantVis := set[0] >= 0 && set[1] >= 0 && set[0] < pw && set[1] < ph
+	if set == [2]int{-1, -1} {
+		// hidden (HideCursor / ShowCursor(-1,-1)): the statement fixes that the cursor is not shown, not which position a
+		// hidden cursor reports
+		if vis {
+			s.finding("sim-cursor", "after %s: GetCursor()=(%d,%d,%v) but the cursor was hidden (HideCursor / ShowCursor(-1,-1)) and not shown again", after, x, y, vis)
+		}
+		return
+	}
 	if x != set[0] || y != set[1] || vis != wantVis {
 		s.finding("sim-cursor", "after %s: GetCursor()=(%d,%d,%v), ShowCursor(%d,%d) on a %dx%d display expects visible=%v", after, x, y, vis, set[0], set[1], pw, ph, wantVis)
 	}
@@ -798,7 +819,11 @@ func genSim(g *h.Gen) {
 			case k < 37:
 				ops = append(ops, fmt.Sprintf("Y %s", style()))
 			case k < 43:
-				ops = append(ops, fmt.Sprintf("C %d %d", r.Range(-1, w), r.Range(-1, hh)))
+				if r.Chance(30) {
+					ops = append(ops, "D")
+				} else {
+					ops = append(ops, fmt.Sprintf("C %d %d", r.Range(-1, w), r.Range(-1, hh)))
+				}
 			case k < 58:
 				ops = append(ops, "W")
 			case k < 63:
@@ -861,8 +886,97 @@ func genSim(g *h.Gen) {
 		}
 		g.Emit("sim cfg %s %s %s; %s", v, cs, strings.Join(tbl, ","), strings.Join(ops, "; "))
 	}
+	genSimDirected(g, v)
 	// codec laws behind inject_bytes_text, validated exhaustively in the thorough tier: see genCodecLaws
 	genCodecLaws(g, v)
+}
+
+// genSimDirected: (a) the last column: rounds of [SetStyle] SetContent(w-1, y, wide|narrow, explicit style|StyleDefault)
+// Show|Sync, so that the cell shown blank for a wide rune was painted before in another style (explicit, or the screen
+// style of an earlier SetStyle); (b) cursor lifecycles: ShowCursor (in and out of range) / HideCursor / Show / Sync /
+// SetSize in every short order, the query observed after each step.
+func genSimDirected(g *h.Gen, v string) {
+	r := g.R
+	def := StyleF{}.String()
+	style := func() string {
+		if r.Chance(35) {
+			return def
+		}
+		return noColorNone(RandStyle(r)).String()
+	}
+	wide := []int{0x4e16, 0x754c, 0xff21, 0x3042, 0x1f600}
+	narrow := []int{'a', 'Z', ' ', 0xe9, '#'}
+	for i, n := 0, g.N(120, 3000); i < n; i++ {
+		cs := simCharsets[i%len(simCharsets)]
+		cd := newCodec(cs)
+		w, hh := r.Range(1, 5), r.Range(1, 2)
+		ops := []string{fmt.Sprintf("Z %d %d", w, hh)}
+		used := map[rune]bool{' ': true}
+		if r.Chance(50) {
+			ops = append(ops, "Y "+noColorNone(RandStyle(r)).String())
+		}
+		if r.Chance(30) {
+			ops = append(ops, h.Pick(r, []string{"W", "N"}))
+		}
+		for k := r.Range(2, 5); k > 0; k-- {
+			if r.Chance(35) {
+				ops = append(ops, "Y "+noColorNone(RandStyle(r)).String())
+			}
+			m := h.Pick(r, wide)
+			if r.Chance(25) {
+				m = h.Pick(r, narrow)
+			}
+			used[rune(m)] = true
+			x := w - 1
+			if r.Chance(15) {
+				x = r.Range(0, w-1)
+			}
+			ops = append(ops, fmt.Sprintf("S %d %d %d - %s", x, r.Range(0, hh-1), m, style()))
+			if r.Chance(85) {
+				ops = append(ops, h.Pick(r, []string{"W", "W", "N"}))
+			}
+		}
+		ops = append(ops, h.Pick(r, []string{"W", "N"}), "G")
+		var us []int
+		for u := range used {
+			us = append(us, int(u))
+		}
+		sort.Ints(us)
+		var tbl []string
+		for _, u := range us {
+			tbl = append(tbl, fmt.Sprintf("%d=%s", u, cd.encStr(rune(u))))
+		}
+		g.Emit("sim cfg %s %s %s; %s", v, cs, strings.Join(tbl, ","), strings.Join(ops, "; "))
+	}
+	for i, n := 0, g.N(120, 3000); i < n; i++ {
+		w, hh := r.Range(1, 6), r.Range(1, 3)
+		ops := []string{fmt.Sprintf("Z %d %d", w, hh)}
+		if r.Chance(50) {
+			ops = append(ops, "W")
+		}
+		for k := r.Range(2, 6); k > 0; k-- {
+			switch q := r.Intn(100); {
+			case q < 45:
+				x, y := r.Range(0, w-1), r.Range(0, hh-1)
+				if r.Chance(25) { // out of range: hidden
+					x, y = h.Pick(r, []int{-1, w, w + 3, x}), h.Pick(r, []int{-1, hh, hh + 2, y})
+				}
+				ops = append(ops, fmt.Sprintf("C %d %d", x, y))
+			case q < 80:
+				ops = append(ops, "D")
+			case q < 85:
+				ops = append(ops, "C -1 -1")
+			default:
+				w, hh = r.Range(1, 6), r.Range(1, 3)
+				ops = append(ops, fmt.Sprintf("Z %d %d", w, hh))
+			}
+			for q := r.Range(0, 2); q > 0; q-- {
+				ops = append(ops, h.Pick(r, []string{"W", "W", "N", "G"}))
+			}
+		}
+		ops = append(ops, h.Pick(r, []string{"W", "N"}), "G")
+		g.Emit("sim cfg %s UTF-8 32=20; %s", v, strings.Join(ops, "; "))
+	}
 }
 
 // genCodecLaws emits, per charset, InjectKeyBytes cases with every encodable BMP rune (quick: a stride) as the last
@@ -901,6 +1015,6 @@ func genCodecLaws(g *h.Gen, v string) {
 
 func init() {
 	h.Register(&h.Engine{Name: "sim",
-		Rule: "random histories (4-30 ops) on NewSimulationScreen(charset) for 12 charsets: drawing, styles, cursor, Show/Sync, SetSize, injected keys/mouse/bytes, fallback registration; plus every (quick: every 97th) multi-byte BMP character of each charset injected as the last character of a text; distinct = distinct line; non-trivial = an in-range SetContent, a SetSize or an InjectKeyBytes",
+		Rule: "random histories (4-30 ops) on NewSimulationScreen(charset) for 12 charsets: drawing, styles, cursor (ShowCursor/HideCursor), Show/Sync, SetSize, injected keys/mouse/bytes, fallback registration; directed last-column histories (wide/narrow runes at x=w-1 in explicit styles and StyleDefault under changing SetStyle) and cursor lifecycles (ShowCursor in/out of range, HideCursor, Show, Sync, SetSize); plus every (quick: every 97th) multi-byte BMP character of each charset injected as the last character of a text; distinct = distinct line; non-trivial = an in-range SetContent, a SetSize or an InjectKeyBytes",
 		Gen:  genSim, Exec: execSim})
 }
